@@ -3,6 +3,7 @@ from ..cfg import cfg_of
 from ..defuse import du_of, walk, peel, callee_name, fmt
 from ..conds import lits_of, all_edge_lits
 from ..callgraph import cg_of
+from ..roles import roles_of
 from ..common import arg_term, contains_call, field_path, assigns_of_return, mentions_param
 
 TEXT = ("M1: the array merge never removes: no call with a removing effect (remove, retain, truncate, clear, drain, "
@@ -21,6 +22,7 @@ REMOVERS = {"remove", "retain", "truncate", "clear", "drain", "pop", "swap_remov
 
 
 def run(facts, res):
+    R = roles_of(facts)
     cg = cg_of(facts)
     res.rule("M1", "merge never removes elements from its destination")
     res.rule("M2", "merge inserts exactly the absent elements (one insert per not-found element, none for found ones)")
@@ -134,7 +136,7 @@ def run(facts, res):
                 names = [callee_name(x) for x in walk(it) if x[0] == "call"]
                 whole = "get_leafs" in names and not (set(names) & {"take", "skip", "filter", "step_by", "take_while", "skip_while", "rev"})
             src = du.operand_term(t.args[0], 16)
-            per_leaf = contains_call(src, "rebuild_array_order") and contains_call(src, "next")
+            per_leaf = contains_call(src, R.name("rebuilder")) and contains_call(src, "next")
             res.instance("M3", "%s: merge_arrays(order of each leaf (%s), &mut base) over the whole leaf set (%s); base is returned (%s); early exits: %d" % (
                 b.path, per_leaf, whole, returned, len(early)), b.loc(t.line))
             if not (per_leaf and whole and returned and not early):
